@@ -3,10 +3,25 @@
 P_hist -- histogram structure functions (properties C06, C11, C12).  Sidecar contracts of
 lena/structures/hist_functions.py, lena/structures/histogram.py, lena/structures/split_into_bins.py."""
 from pyvc.contracts import Contract, LoopSpec, ClassSpec
+from pyvc.smt import T
+from pyvc.sym import Num
+from pyvc.speclib import lst_term
 
 HF = "lena/structures/hist_functions.py"
 HI = "lena/structures/histogram.py"
 SB = "lena/structures/split_into_bins.py"
+
+
+INCR = "all({a}[i] < {a}[i + 1] for i in range(len({a}) - 1))"
+
+
+def incr(a):
+    return INCR.format(a=a)
+
+
+def mono(a):
+    """pairwise form of strictly increasing"""
+    return "all(all(implies(i < j, {a}[i] < {a}[j]) for j in range(len({a}))) for i in range(len({a})))".format(a=a)
 
 
 def norm(i, n):
@@ -19,8 +34,17 @@ def inrange(i, n):
 
 
 def register(ix):
+    from pyvc import histlib
+    histlib.register(ix)          # born(x), clock(), copy_of(c, x), new_object(c): ghost allocation clock
     register_get_bin_on_index(ix)
     register_init_bins(ix)
+    register_histogram_init(ix)
+    register_iter_bins(ix)
+    register_integral(ix)
+    register_get_bin_edges(ix)
+    register_scale(ix)
+    register_add(ix)
+    register_nevents(ix)
 
 
 # ---------------------------------------------------------------------------------------------- get_bin_on_index
@@ -81,9 +105,57 @@ def register_init_bins(ix):
     C11: `deep copy of the analysis per cell at construction`."""
     ALL1 = "all(result[i] == value for i in range(len(result)))"
     ALL2 = "all(all(result[i][j] == value for j in range(len(result[i]))) for i in range(len(result)))"
+    # ---- cells that are objects (the analysis sequence of SplitIntoBins): ownership
+    # "every cell is its OWN deep copy of the initial value": made by copy.deepcopy(value) during this call (so it is
+    # neither the value itself nor anything that existed before) and no two cells are the same object
+    def own(cell, rng):
+        return ["deepcopy implies " + rng("copy_of(%s, value)" % cell),
+                "deepcopy implies " + rng("is_deep_copy(%s)" % cell),
+                "deepcopy implies " + rng("%s is not value" % cell),
+                # (for callers that build several rows: the stamps of this call's objects)
+                "deepcopy implies " + rng("old(clock()) <= born(%s) < clock()" % cell),
+                "clock() >= old(clock())",
+                "not deepcopy implies " + rng("%s is value" % cell)]
+    r1 = lambda body: "all(%s for i in range(len(result)))" % body
+    r2 = lambda body: "all(all(%s for j in range(len(result[i]))) for i in range(len(result)))" % body
+    DISTINCT1 = "all(all(implies(i != j, {b}[i] is not {b}[j]) for j in range(len({b}))) for i in range(len({b})))"
+    DISTINCT2 = ("all(all(all(all(implies(i != i2 or j != j2, {b}[i][j] is not {b}[i2][j2]) for j2 in range(len({b}[i2])))"
+                 " for i2 in range(len({b}))) for j in range(len({b}[i]))) for i in range(len({b})))")
+    b2 = lambda body: "all(all(%s for j in range(len(bins[i]))) for i in range(len(bins)))" % body
+    obj_cases = [
+        Contract(HF, "init_bins", name="init_bins[2-d edges, element]",
+                 params={"edges": "PyList[2,Lst[Real]]", "value": "Obj", "deepcopy": "Bool"}, result="Lst[Lst[Obj]]",
+                 defaults={"deepcopy": False}, ghost={"alloc": True},
+                 requires=["len(edges[0]) >= 1", "len(edges[1]) >= 1"],
+                 local_types={"bins": "Lst[Lst[Obj]]"},
+                 loops={1: LoopSpec(invariant=[
+                     "len(bins) == _i",
+                     "all(len(bins[i]) == len(edges[1]) - 1 for i in range(len(bins)))",
+                     "clock() >= old(clock())",
+                     "deepcopy implies " + b2("copy_of(bins[i][j], value)"),
+                     "deepcopy implies " + b2("is_deep_copy(bins[i][j])"),
+                     "deepcopy implies " + b2("old(clock()) <= born(bins[i][j]) < clock()"),
+                     "deepcopy implies " + DISTINCT2.format(b="bins"),
+                     "not deepcopy implies " + b2("bins[i][j] is value")])},
+                 ensures=["len(result) == len(edges[0]) - 1",
+                          "all(len(result[i]) == len(edges[1]) - 1 for i in range(len(result)))"]
+                 + own("result[i][j]", r2) + ["deepcopy implies " + DISTINCT2.format(b="result")]),
+        Contract(HF, "init_bins", name="init_bins[[x-edges], element]",
+                 params={"edges": "PyList[1,Lst[Real]]", "value": "Obj", "deepcopy": "Bool"}, result="Lst[Obj]",
+                 defaults={"deepcopy": False}, ghost={"alloc": True},
+                 requires=["len(edges[0]) >= 1"],
+                 ensures=["len(result) == len(edges[0]) - 1"] + own("result[i]", r1)
+                 + ["deepcopy implies " + DISTINCT1.format(b="result")]),
+        Contract(HF, "init_bins", name="init_bins[1-d edges, element]",
+                 params={"edges": "Lst[Real]", "value": "Obj", "deepcopy": "Bool"}, result="Lst[Obj]",
+                 defaults={"deepcopy": False}, ghost={"alloc": True},
+                 requires=["len(edges) >= 1"],
+                 ensures=["len(result) == len(edges) - 1"] + own("result[i]", r1)
+                 + ["deepcopy implies " + DISTINCT1.format(b="result")]),
+    ]
     ix.add(Contract(
         HF, "init_bins", props=["C11", "C12", "C06"],
-        cases=[
+        cases=obj_cases[:2] + [
             # (concrete-length edge lists first: case selection goes by argument fit)
             Contract(HF, "init_bins", name="init_bins[2-d edges, number]",
                      params={"edges": "PyList[2,Lst[Real]]", "value": "Real", "deepcopy": "Bool"}, result="Lst[Lst[Real]]",
@@ -106,4 +178,262 @@ def register_init_bins(ix):
                      defaults={"value": 0, "deepcopy": False},
                      requires=["len(edges) >= 1"],
                      ensures=["len(result) == len(edges) - 1", ALL1]),
+        ] + obj_cases[2:]))
+
+
+# ---------------------------------------------------------------------------------------------- histogram (1-d)
+H1_FIELDS = {"edges": "Lst[Real]", "bins": "Lst[Real]", "n_out_of_range": "Real", "dim": "Int",
+             "nbins": "PyList[1,Int]", "ranges": "PyList[1,Tuple[Real,Real]]"}
+H1_INV = ["len(self.edges) >= 2", mono("self.edges"), "len(self.bins) == len(self.edges) - 1", "self.dim == 1",
+          "self.nbins[0] == len(self.edges) - 1"]
+H_ALL = ["self.edges", "self.bins", "self.n_out_of_range", "self.dim", "self._scale", "self.nbins", "self.ranges"]
+
+
+def register_histogram_init(ix):
+    """1-dimensional histogram objects.  `histogram`: scale not computed (self._scale is None, the state after __init__);
+    `histogram_scaled`: a scale was computed or set before (self._scale is a number)."""
+    ix.add_class(ClassSpec("histogram0", HI, fields={}, alias_of="histogram"))          # under construction
+    ix.add_class(ClassSpec("histogram", HI, fields=dict(H1_FIELDS, _scale="None"), invariant=H1_INV))
+    ix.add_class(ClassSpec("histogram_scaled", HI, fields=dict(H1_FIELDS, _scale="Real"), invariant=H1_INV,
+                           alias_of="histogram"))
+    bad_edges = "len(edges) <= 1 or not " + incr("edges")
+    common = ["self.edges == edges", "self.n_out_of_range == 0", "self._scale is None", "self.dim == 1",
+              "self.nbins[0] == len(edges) - 1", "self.ranges[0][0] == edges[0]",
+              "self.ranges[0][1] == edges[len(edges) - 1]",
+              # (the object invariant of `histogram`, established here)
+              "len(self.edges) >= 2", incr("self.edges"), "len(self.bins) == len(self.edges) - 1"]
+    ix.add(Contract(
+        HI, "histogram.__init__", props=["C06", "C12"],
+        cases=[
+            Contract(HI, "histogram.__init__", name="histogram.__init__[dim=1, bins given]",
+                     params={"self": "Self[histogram0]", "edges": "Lst[Real]", "bins": "Lst[Real]", "initial_value": "Real"},
+                     defaults={"initial_value": 0},
+                     raises={"LenaValueError": bad_edges + " or len(bins) != len(edges) - 1"},
+                     ensures=common + ["self.bins == bins"], modifies=H_ALL),
+            Contract(HI, "histogram.__init__", name="histogram.__init__[dim=1, bins None]",
+                     params={"self": "Self[histogram0]", "edges": "Lst[Real]", "bins": "None", "initial_value": "Real"},
+                     defaults={"bins": None, "initial_value": 0},
+                     raises={"LenaValueError": bad_edges},
+                     ensures=common + ["all(self.bins[i] == initial_value for i in range(len(self.bins)))"],
+                     modifies=H_ALL),
         ]))
+
+
+# ---------------------------------------------------------------------------------------------- iter_bins
+def register_iter_bins(ix):
+    """docstring: `Iterate on bins.  Yield (index, bin content).`  C12: conversions keep every cell once and in order."""
+    ix.add(Contract(
+        HF, "iter_bins", props=["C12"],
+        cases=[
+            Contract(HF, "iter_bins", name="iter_bins[a cell]",
+                     params={"bins": "Real"}, generator=True, yields="Tuple[Tuple[],Real]",
+                     out_def=("1", "k", "((), bins)"),
+                     ensures=["len(out) == 1", "all(out[k] == ((), bins) for k in range(len(out)))"]),
+            Contract(HF, "iter_bins", name="iter_bins[1-d bins]",
+                     params={"bins": "Lst[Real]"}, generator=True, yields="Tuple[Tuple[Int],Real]",
+                     loops={0: LoopSpec(invariant=[
+                                "len(out) == _i0",
+                                "all(out[k][0][0] == k and out[k][1] == bins[k] for k in range(len(out)))"]),
+                            1: LoopSpec(invariant=[
+                                "len(out) == _i0 + _i1", "_i0 < len(bins)",
+                                "all(out[k][0][0] == k and out[k][1] == bins[k] for k in range(len(out)))"])},
+                     # the k-th value handed out is cell k with its index
+                     at_yield=["yielded[0][0] == len(out)", "yielded[1] == bins[len(out)]", "len(yielded[0]) == 1"],
+                     # one (index, content) per cell, in order: the delivered sequence IS k -> ((k,), bins[k])
+                     out_def=("len(bins)", "k", "((k,), bins[k])"),
+                     ensures=["len(out) == len(bins)",
+                              "all(out[k] == ((k,), bins[k]) for k in range(len(out)))"]),
+        ]))
+
+
+# ---------------------------------------------------------------------------------------------- integral
+def sp_integral1d(ip, st, pos, kws):
+    """integral1d(bins, edges, n): sum over the cells k < n of (edges[k+1] - edges[k]) * bins[k]  (reference function
+    of the property text: `scale (integral of the histogram)`, over the reals)"""
+    reg = ip.reg
+    lr = reg.lst("Real")
+    reg.fun_decl("integral1d",
+                 "(define-fun-rec integral1d ((b %s) (e %s) (n Int)) Real (ite (<= n 0) 0.0 (+ (integral1d b e (- n 1)) "
+                 "(* (- (select (arr_%s e) n) (select (arr_%s e) (- n 1))) (select (arr_%s b) (- n 1))))))" % (lr, lr, lr, lr, lr))
+    b = lst_term(ip, st, pos[0], lr)
+    e = lst_term(ip, st, pos[1], lr)
+    return Num(T("(integral1d %s %s %s)" % (b.s, e.s, ip.num(pos[2]).s), "Real"))
+
+
+def register_integral(ix):
+    ix.spec_names["integral1d"] = sp_integral1d
+    ix.add(Contract(
+        HF, "integral", props=["C12"],
+        cases=[
+            Contract(HF, "integral", name="integral[1-d: bins, [edges]]",
+                     params={"bins": "Lst[Real]", "edges": "PyList[1,Lst[Real]]"}, result="Real",
+                     requires=["len(bins) == len(edges[0]) - 1"],
+                     loops={0: LoopSpec(invariant=["total == integral1d(bins, edges[0], _i)"], ghost={"total": "Real"})},
+                     ensures=["result == integral1d(bins, edges[0], len(bins))"]),
+        ]))
+
+
+# ---------------------------------------------------------------------------------------------- get_bin_edges
+def register_get_bin_edges(ix):
+    """docstring: `In one-dimensional case index must be an integer and a tuple of (x_low_edge, x_high_edge) for that bin
+    is returned.  In a multidimensional case index is a container of numeric indices in each dimension.  A list of bin
+    edges in each dimension is returned.`  A bin index i addresses the bin [edges[i], edges[i+1])."""
+    def md(n):
+        req, ens = [], ["len(result) == %d" % n]
+        for d in range(n):
+            req.append("0 <= index[{d}] < len(edges[{d}]) - 1".format(d=d))
+            ens += ["result[{d}][0] == edges[{d}][index[{d}]]".format(d=d),
+                    "result[{d}][1] == edges[{d}][index[{d}] + 1]".format(d=d)]
+        return Contract(HF, "get_bin_edges", name="get_bin_edges[%d-d edges in a list]" % n,
+                        params={"index": "Tuple[%s]" % ",".join(["Int"] * n), "edges": "PyList[%d,Lst[Real]]" % n},
+                        result="PyList[%d,Tuple[Real,Real]]" % n, requires=req, ensures=ens)
+    ix.add(Contract(
+        HF, "get_bin_edges", props=["C12", "C11"],
+        cases=[
+            md(1), md(2), md(3),
+            Contract(HF, "get_bin_edges", name="get_bin_edges[1-d edges, number]",
+                     params={"index": "Int", "edges": "Lst[Real]"}, result="Tuple[Real,Real]",
+                     requires=["0 <= index < len(edges) - 1"],
+                     ensures=["result[0] == edges[index]", "result[1] == edges[index + 1]"]),
+            Contract(HF, "get_bin_edges", name="get_bin_edges[1-d edges, (i,)]",
+                     params={"index": "Tuple[Int]", "edges": "Lst[Real]"}, result="Tuple[Real,Real]",
+                     requires=["0 <= index[0] < len(edges) - 1"],
+                     ensures=["result[0] == edges[index[0]]", "result[1] == edges[index[0] + 1]"]),
+        ]))
+
+
+# ---------------------------------------------------------------------------------------------- histogram.scale (1-d)
+MM = "lena/math/meshes.py"
+SC = "integral1d(self.bins, self.edges, len(self.bins))"
+
+
+def register_scale(ix):
+    """docstring: `If other is None, return scale of this histogram.  If its scale was not computed before, it is computed
+    and stored for subsequent use (unless explicitly asked to recompute). ... If a float other is provided, rescale self
+    to other.  Histograms with scale equal to zero can't be rescaled.  LenaValueError is raised if one tries to do that.`
+    C12: rescaling to s multiplies exactly the contents (bins and n_out_of_range) by s / old scale, leaves edges
+    untouched; the old scale is the stored one when it was computed before (it must be recomputed explicitly)."""
+    # tiny helpers executed in place from their real ASTs
+    ix.add(Contract(HF, "unify_1_md", props=[], params={"bins": "Any", "edges": "Any"}, inline=True))
+    ix.add(Contract(MM, "md_map", props=[], params={"f": "Any", "arrays": "Any"}, inline=True))
+
+    def rescaled(old_scale):
+        return ["len(self.bins) == old(len(self.bins))",
+                "all(self.bins[i] == old(self.bins[i]) * other / %s for i in range(len(self.bins)))" % old_scale,
+                "self.n_out_of_range == old(self.n_out_of_range) * (other / %s)" % old_scale,
+                "self._scale == other"]
+    untouched = ["len(self.bins) == old(len(self.bins))",
+                 "all(self.bins[i] == old(self.bins[i]) for i in range(len(self.bins)))",
+                 "self.n_out_of_range == old(self.n_out_of_range)"]
+    ix.add(Contract(
+        HI, "histogram.scale", props=["C12"],
+        cases=[
+            Contract(HI, "histogram.scale", name="histogram.scale[get, not computed before]",
+                     params={"self": "Self[histogram]", "other": "None", "recompute": "Bool"}, result="Real",
+                     defaults={"other": None, "recompute": False}, post_class="histogram_scaled",
+                     ensures=["result == " + SC, "self._scale == result"], modifies=["self._scale"]),
+            Contract(HI, "histogram.scale", name="histogram.scale[get, computed before]",
+                     params={"self": "Self[histogram_scaled]", "other": "None", "recompute": "Bool"}, result="Real",
+                     defaults={"other": None, "recompute": False},
+                     ensures=["result == (%s if recompute else old(self._scale))" % SC, "self._scale == result"],
+                     modifies=["self._scale"]),
+            Contract(HI, "histogram.scale", name="histogram.scale[set, not computed before]",
+                     params={"self": "Self[histogram]", "other": "Real", "recompute": "Bool"}, result=None,
+                     defaults={"recompute": False}, post_class="histogram_scaled",
+                     raises={"LenaValueError": SC + " == 0"},
+                     exc_ensures={"LenaValueError": untouched},
+                     ensures=rescaled("old(%s)" % SC),
+                     modifies=["self.bins", "self.n_out_of_range", "self._scale"]),
+            Contract(HI, "histogram.scale", name="histogram.scale[set, computed before]",
+                     params={"self": "Self[histogram_scaled]", "other": "Real", "recompute": "Bool"}, result=None,
+                     defaults={"recompute": False},
+                     raises={"LenaValueError": "self._scale == 0"},
+                     exc_ensures={"LenaValueError": untouched + ["self._scale == old(self._scale)"]},
+                     ensures=rescaled("old(self._scale)"),
+                     modifies=["self.bins", "self.n_out_of_range", "self._scale"]),
+        ]))
+
+
+# ---------------------------------------------------------------------------------------------- isclose, histogram.add
+MU = "lena/math/utils.py"
+CLOSE = "(abs({a} - {b}) <= max(rel_tol * max(abs({a}), abs({b})), abs_tol))"
+
+
+def register_add(ix):
+    """histogram.add docstring: `For each bin, the corresponding bin of other is added.  It can be multiplied with weight.
+    ... Histograms must have the same edges.  They are compared approximately using math.isclose with edges_abs_tol and
+    edges_rel_tol`.  C12: `histogram.add returns the cell-wise a + w*b without modifying its operands and only for equal
+    edges`."""
+    ix.add(Contract(MU, "_isclose", props=[], params={"a": "Any", "b": "Any", "rel_tol": "Any", "abs_tol": "Any"}, inline=True))
+    ix.add(Contract(
+        MU, "isclose", props=["C12"],
+        cases=[
+            Contract(MU, "isclose", name="isclose[numbers]",
+                     params={"a": "Real", "b": "Real", "rel_tol": "Real", "abs_tol": "Real"}, result="Bool",
+                     defaults={"rel_tol": 1e-09, "abs_tol": 0.0},
+                     ensures=["result == " + CLOSE.format(a="a", b="b")]),
+            Contract(MU, "isclose", name="isclose[lists of numbers]",
+                     params={"a": "Lst[Real]", "b": "Lst[Real]", "rel_tol": "Real", "abs_tol": "Real"}, result="Bool",
+                     defaults={"rel_tol": 1e-09, "abs_tol": 0.0},
+                     requires=["len(a) <= len(b)"],
+                     loops={0: LoopSpec(invariant=["all(%s for k in range(_i))" % CLOSE.format(a="a[k]", b="b[k]")])},
+                     ensures=["result == all(%s for k in range(len(a)))" % CLOSE.format(a="a[k]", b="b[k]")]),
+        ]))
+    # histogram objects whatever their cached scale: add() neither reads nor writes `_scale`
+    ix.add_class(ClassSpec("histogram_any", HI, fields=H1_FIELDS, invariant=H1_INV, alias_of="histogram"))
+    EDGES_CLOSE = "all(%s for k in range(len(self.edges)))" % CLOSE.format(a="self.edges[k]", b="other.edges[k]") \
+        .replace("rel_tol", "edges_rel_tol").replace("abs_tol", "edges_abs_tol")
+    ix.add(Contract(
+        HI, "histogram.add", props=["C12"],
+        cases=[
+            Contract(HI, "histogram.add", name="histogram.add[1-d histograms]",
+                     params={"self": "Self[histogram_any]", "other": "Inst[histogram_any]", "weight": "Real",
+                             "edges_abs_tol": "Real", "edges_rel_tol": "Real"},
+                     defaults={"weight": 1, "edges_abs_tol": 0.0, "edges_rel_tol": 1e-09},
+                     result="Inst[histogram]",
+                     requires=[inv.replace("self.", "other.") for inv in H1_INV],      # other is a histogram as well
+                     # only for equal edges (same number of bins, every edge close within the tolerances)
+                     raises={"LenaValueError": "len(self.edges) != len(other.edges) or not " + EDGES_CLOSE},
+                     ensures=["result is not self and result is not other",
+                              "len(result.bins) == len(self.bins)",
+                              "all(result.bins[i] == self.bins[i] + weight * other.bins[i] for i in range(len(result.bins)))",
+                              "result.n_out_of_range == self.n_out_of_range + weight * other.n_out_of_range",
+                              "result.edges == self.edges", "result._scale is None", "result.dim == 1",
+                              "result.nbins[0] == self.nbins[0]"],
+                     modifies=[],       # operands unmodified: every field and list of self and other (frame)
+                     raises_frame="pure"),
+            Contract(HI, "histogram.add", name="histogram.add[other is not a histogram]",
+                     params={"self": "Self[histogram_any]", "other": "V", "weight": "Real",
+                             "edges_abs_tol": "Real", "edges_rel_tol": "Real"},
+                     defaults={"weight": 1, "edges_abs_tol": 0.0, "edges_rel_tol": 1e-09},
+                     requires=["not is_instance_of(other, 'histogram')"],
+                     raises={"LenaTypeError": "True"}, raises_frame="pure"),
+        ]))
+
+
+# ---------------------------------------------------------------------------------------------- get_nevents / set_nevents
+NEV = "lsum(self.bins, len(self.bins))"
+
+
+def register_nevents(ix):
+    """get_nevents docstring: `If the histogram was filled N times, return N.  If the histogram was filled with weights
+    w_i, return the sum of w_i.  Values filled outside the histogram range are not counted unless include_out_of_range`
+    -- i.e. the sum of the bin contents (plus n_out_of_range).  set_nevents: `Scale histogram bins to contain nevents
+    ... n_out_of_range is scaled together with the histogram bins.  Rescaling a histogram with zero entries raises a
+    LenaValueError.`"""
+    total = "(%s + (self.n_out_of_range if include_out_of_range else 0))" % NEV
+    ix.add(Contract(
+        HI, "histogram.get_nevents", props=["C12"],
+        params={"self": "Self[histogram_any]", "include_out_of_range": "Bool"}, result="Real",
+        defaults={"include_out_of_range": False},
+        ensures=["result == " + total], modifies=[]))
+    ix.add(Contract(
+        HI, "histogram.set_nevents", props=["C12"],
+        params={"self": "Self[histogram_any]", "nevents": "Real", "include_out_of_range": "Bool"}, result=None,
+        defaults={"include_out_of_range": False},
+        raises={"LenaValueError": total + " == 0"},
+        exc_ensures={"LenaValueError": ["self.n_out_of_range == old(self.n_out_of_range)"]},
+        ensures=["len(self.bins) == old(len(self.bins))",
+                 "all(self.bins[i] == old(self.bins[i]) * (nevents / old(%s)) for i in range(len(self.bins)))" % total,
+                 "self.n_out_of_range == old(self.n_out_of_range) * (nevents / old(%s))" % total],
+        modifies=["self.bins", "self.n_out_of_range"]))
